@@ -47,6 +47,13 @@ func genPairCase(t *rapid.T, optSets []string, tweak func(*gen.Profile)) PairCas
 	}
 	if ks := jdx.SetKeysOf(opts); ks != nil && gen.Chance(t, "keyedPair", 65) {
 		a, b := gen.KeyedPair(t, ks, p)
+		if gen.Chance(t, "exactDuplicates", 10) {
+			// the same member object twice: still one member of the set
+			a = gen.DupSome(t, a, 40)
+			if gen.Chance(t, "alsoInB", 30) {
+				b = gen.DupSome(t, b, 40)
+			}
+		}
 		if gen.Chance(t, "deep", 15) {
 			a, b = gen.DeepPair(t, a, b, p)
 		}
